@@ -226,6 +226,11 @@ def drive(sess, rnd, cfg, record):
                     ops.append({"op": "set_comp_phases", "name": e["name"], "conf": copy.deepcopy(m.phase_conf[e["name"]])})
                 if e:
                     ops.append(make_observe(g, m, cfg))
+            elif m.mux() is not None and R.chance(0.2):
+                ops = g.ops_rail_handover(m) or [g.op_change(m)]
+                for o in ops[1:]:
+                    pass
+                ops.append(make_observe(g, m, cfg))
             else:
                 ops = [R.wpick([(g.op_change, 3), (g.op_del, 2), (g.op_move, 1.5)])(m)]
             if g.pending:
